@@ -214,8 +214,9 @@ def run_tty(ctx, prop):
     with open(cases) as f:
         ncase_lines = sum(1 for _ in f)
     env = {"CASES": cases, "TRACE_OUT": tr_g, "VERIF_TTY_CONS": _kinds(prop)}
-    if not q and prop == "C18":
-        env["VERIF_TTY_KINDMOD"] = 6     # every transition on the recording console, every 6th on the real ones as well
+    if prop == "C18":
+        # every case on the recording console; every 2nd (quick) / 6th (thorough) also on the real consoles
+        env["VERIF_TTY_KINDMOD"] = 2 if q else 6
     _go(ctx, prop, "TestVerifC17Cases", env, 1800)
     ctx.cov["legs"]["emit"] = {"case_lines_from_tlc": ncase_lines}
 
